@@ -2,6 +2,7 @@ import VrlModel.Driver.C18
 import VrlModel.Driver.Lang
 import VrlModel.Driver.C15
 import VrlModel.Driver.Sweep
+import VrlModel.Driver.Typed
 import VrlModel.Driver.Arith
 import VrlModel.Driver.C25
 import VrlModel.Driver.C29int
@@ -24,6 +25,7 @@ def handlers : List (String → List String → Option String) := [
   Driver.LangRun.handle,
   Driver.C15.handle,
   Driver.Sweep.handle,
+  Driver.Typed.handle,
   Driver.ArithOps.handle,
   Driver.C25.handle,
   Driver.C29int.handle,
